@@ -4,7 +4,7 @@ arrays.FLOAT_AS[0] = "real"
 PROPERTY = "C08"
 LEVEL = "other"
 CONTRACT_MODULES = ["contracts.c08"]
-CARRIERS = ["batchie.models.sparse_combo.LegacySparseDrugComboImpl.mcmc_step"]
+CARRIERS = ["batchie.models.sparse_combo.LegacySparseDrugComboImpl.mcmc_step", "batchie.models.sparse_combo.LegacySparseDrugComboImpl._alpha_step@default", "batchie.models.sparse_combo.LegacySparseDrugComboImpl._prec_W0_step@bounds", "batchie.models.sparse_combo.LegacySparseDrugComboImpl._prec_obs_step@bounds"]
 NATIVE = "c08.py"
 EXPLANATION = (
     "The central claim - each update is DRAWN FROM the full conditional - is a statement about probability distributions of "
@@ -14,7 +14,26 @@ EXPLANATION = (
     "sampler, every primitive draw's arguments compared with an independent derivation from the model and priors; fitted-value "
     "cache; mvn routine mean/covariance; exported sample). PROVED (pyvc, from the body of mcmc_step with the twelve block methods "
     "as recorded stubs): one step counts itself, rebuilds the fitted values unclipped first, then visits every one of the twelve "
-    "blocks exactly once in the documented order, all Gaussian blocks before the precision blocks. Level 'other'.")
-TRUSTED = ["pyvc symbolic executor", "block methods as stubs inside mcmc_step (only 'is called and returns' is used)",
+    "blocks exactly once in the documented order, all Gaussian blocks before the precision blocks; _alpha_step under the default "
+    "option: the global intercept becomes exactly the mean of the transformed observations and every running fitted value moves "
+    "by the same amount (nothing changes without data); _prec_W0_step and _prec_obs_step: exactly one gamma draw whose shape is "
+    "prior shape + half the count and whose scale is 1/(prior rate + half the sum of squares (of the intercepts resp. of "
+    "observation minus fitted value) + 1e-3) - the parameters of the conjugate full conditional (sum of squares >= 0 by an SMT "
+    "induction lemma) - and the stored precision is clipped into [1/sqrt(1+n_obs), 1e6]; without data the observation precision "
+    "is drawn from its prior. That these PARAMETERS make the draw a sample of the full conditional is the bounded harness's "
+    "job, as are all vector-valued blocks. Level 'other'.")
+TRUSTED = ["pyvc symbolic executor; z3 5.1", "reals for floats; sqrt as an uninterpreted function with sqrt(x)>=1 for x>=1; x**2 as an opaque non-negative square", "np.random.gamma/normal (global): any value of the support, parameters logged", "block methods as stubs inside mcmc_step (only 'is called and returns' is used)",
            "native oracle: full conditionals derived from the model definition in the harness docstring"]
 ASSUMPTIONS = ["distributional clauses, precision bounds, Mu cache, exported sample: bounded only"]
+
+
+def lemmas():
+    """sum_nonneg by induction on n (sumr's unfolding instantiated at n)"""
+    import z3
+    from pyvc.lib.np_real import sumr, RealArr
+    from pyvc.values import Int
+    f = z3.Const("f", RealArr)
+    n, k = z3.Ints("n k")
+    nonneg = lambda m: z3.ForAll([k], z3.Implies(z3.And(k >= 0, k < m), z3.Select(f, k) >= 0))  # noqa
+    return [("sum_nonneg:base", [sumr(f, 0) == 0], sumr(f, 0) >= 0),
+            ("sum_nonneg:step", [n >= 0, z3.Implies(nonneg(n), sumr(f, n) >= 0), nonneg(n + 1), sumr(f, n + 1) == sumr(f, n) + z3.Select(f, n)], sumr(f, n + 1) >= 0)]
